@@ -139,8 +139,11 @@ class ThreadHarness:
             if kind == "held":
                 # a response opened before the threads start and kept open while they run (its connection is ACTIVE throughout)
                 try:
+                    n0 = len(w.net.ledger)
                     cm = pool.stream("GET", scen.url_for(ct, host=f"{tok.split('@')[1]}.example", token=tok.split("@")[0]))
-                    held_open.append((name, tok.split("@")[0], cm, cm.__enter__()))
+                    r_ = cm.__enter__()
+                    trs_ = {o.tr.id for o in w.net.ledger[n0:] if o.kind == "write" and o.tr is not None}
+                    held_open.append((name, tok.split("@")[0], cm, r_, trs_))
                 except Exception as e:
                     viol("warm-up", f"held response {name} could not be opened: {exc_class(e)}: {e}")
                 continue
@@ -156,7 +159,11 @@ class ThreadHarness:
                     t.shutdown()
         w.run()
         results = {t.name: t.result for t in w.threads}
-        for name, tok_, cm, r_ in held_open:
+        for name, tok_, cm, r_, trs_ in held_open:
+            shut = [t_ for t_ in trs_ if w.net.transports[t_].closed]
+            if shut:
+                viol("held-response-broken", f"the stream of a connection with an open response (ACTIVE since before the threads started) was closed while "
+                     f"other threads used the pool: T{shut}; pool={pool!r} {pool.connections}", exc=None)
             try:
                 body_ = r_.read()
                 cm.__exit__(None, None, None)
